@@ -17,60 +17,47 @@ import (
 // KnownCodecIssues lists shapes that the New* constructors of pkg/packet/bgp
 // accept but that the codec does not round-trip (or that make String /
 // MarshalJSON / Serialize fail).  The generators produce such a shape only when
-// AvoidKnownIssues is false or the entry is switched to false (e.g. after the
-// defect was fixed in the tree under test).  Every key is explained in
-// KnownCodecIssueNotes and demonstrated by TestExoticKnownIssues.
+// AvoidKnownIssues is false or the entry is switched to false.  Every key is
+// explained in KnownCodecIssueNotes and demonstrated by TestExoticKnownIssues.
+// Only defects that are still open are listed; the repaired ones moved to
+// FixedCodecIssues and their shapes are generated unconditionally.
 var KnownCodecIssues = map[string]bool{
-	"ec-2octet-as-subtype4-transitive":   true,
-	"ec-multicast-flags-none":            true,
-	"ec-multicast-flags-both":            true,
-	"ec-l2attr-primary-and-backup":       true,
-	"ec-unknown-evpn-mup-subtype":        true,
-	"rd-unknown-type":                    true,
-	"evpn-ipmsi":                         true,
-	"encap-nlri-multi":                   true,
-	"flowspec-len-ge-240":                true,
-	"ls-prefix-len0":                     true,
-	"ls-ctor-local-ipv6-router-id":       true,
-	"ls-ctor-remote-ipv6-router-id":      true,
-	"ls-ctor-sr-capabilities":            true,
-	"ls-ctor-sr-local-block":             true,
-	"ls-ctor-prefix-sid":                 true,
-	"ls-ctor-opaque-prefix-attr":         true,
-	"ls-ctor-peer-adjacency-sid-type":    true,
-	"tunnel-encap-len-before-serialize":  true,
-	"tunnel-encap-trailing-empty-subtlv": true,
-	"tunnel-encap-trailing-empty-tlv":    true,
-	"srbsid-nil-bsid":                    true,
-	"srv6-bsid-subtlv":                   true,
-	"aigp-empty-tlv":                     true,
+	"ec-unknown-evpn-mup-subtype": true,
+	"srv6-bsid-subtlv":            true,
 }
 
 // KnownCodecIssueNotes documents each key of KnownCodecIssues.
 var KnownCodecIssueNotes = map[string]string{
-	"ec-2octet-as-subtype4-transitive":   "NewTwoOctetAsSpecificExtended(0x04, as, la, true): ParseExtended maps type 0x00/sub-type 0x04 to LinkBandwidthExtended, which always serialises type 0x40 (transitivity bit flipped)",
-	"ec-multicast-flags-none":            "NewMulticastFlagsExtended(false,false) serialises flags=0, parseEvpnExtended then fails with 'unknown evpn subtype: 9'",
-	"ec-multicast-flags-both":            "NewMulticastFlagsExtended(true,true).Serialize uses else-if: the MLD proxy bit is never set when IGMP proxy is set",
-	"ec-l2attr-primary-and-backup":       "Layer2AttributesExtended{IsPrimaryPe:true,IsBackupPe:true}.Serialize uses else-if: the primary-PE bit is dropped",
-	"ec-unknown-evpn-mup-subtype":        "NewUnknownExtended(EC_TYPE_EVPN|EC_TYPE_MUP, unknown sub-type) serialises, ParseExtended returns an error instead of UnknownExtended",
-	"rd-unknown-type":                    "RouteDistinguisherUnknown: GetRouteDistinguisher never fills Value for unknown RD types, the 6 value octets are lost (re-serialised as zero)",
-	"evpn-ipmsi":                         "NewEVPNIPMSIRoute: Serialize emits 28 octets for Len()==20 (buffer made with len 20 then appended) and getEVPNRouteType has no case for route type 9",
-	"encap-nlri-multi":                   "EncapNLRI.decodeFromBytes builds the address from all remaining octets instead of the 4/16 the length octet announces: a second NLRI in the same MP_REACH_NLRI makes the first one invalid (Len()==1) and mis-frames the rest",
-	"flowspec-len-ge-240":                "FlowSpecNLRI of 240 octets or more: Serialize writes the 2-octet length into the body instead of the prefix (and without the 0xf nibble), Len() and Serialize disagree at 239/240, decode does not mask 0x0fff",
-	"ls-prefix-len0":                     "NewLsPrefixTLVs with a /0 prefix emits one prefix octet, LsTLVIPReachability.DecodeFromBytes wants none ('Malformed IP reachability TLV')",
-	"ls-ctor-local-ipv6-router-id":       "NewLsTLVLocalIPv6RouterID sets Length 0, Serialize fails ('LS TLV malformed')",
-	"ls-ctor-remote-ipv6-router-id":      "NewLsTLVRemoteIPv6RouterID sets Length 4, Serialize fails",
-	"ls-ctor-sr-capabilities":            "NewLsTLVSrCapabilities computes Length 4*ranges instead of 2+11*ranges, Serialize fails",
-	"ls-ctor-sr-local-block":             "NewLsTLVSrLocalBlock computes Length 4*ranges instead of 2+11*ranges, Serialize fails",
-	"ls-ctor-prefix-sid":                 "NewLsTLVPrefixSID sets Length 0, Serialize fails",
-	"ls-ctor-opaque-prefix-attr":         "NewLsTLVOpaquePrefixAttr sets Length 0, Serialize fails for a non-empty value",
-	"ls-ctor-peer-adjacency-sid-type":    "NewLsTLVPeerAdjacencySID sets Type LS_TLV_ADJACENCY_SID (1099) instead of LS_TLV_PEER_ADJACENCY_SID (1102): parsed back as LsTLVAdjacencySID",
-	"tunnel-encap-len-before-serialize":  "TunnelEncapSubTLV.Length is only set by Serialize: NewPathAttributeTunnelEncap computes PathAttribute.Length (hence Len()) from zero sub-TLV lengths",
-	"tunnel-encap-trailing-empty-subtlv": "TunnelEncapTLV.DecodeFromBytes loops while len(value) > 2: a trailing sub-TLV with an empty value (2 octets) is dropped",
-	"tunnel-encap-trailing-empty-tlv":    "PathAttributeTunnelEncap.DecodeFromBytes loops while len(value) > 4: a trailing TLV without sub-TLVs (4 octets) is dropped",
-	"srbsid-nil-bsid":                    "TunnelEncapSubTLVSRBSID{BSID:nil} (what NewBSID returns for an empty SID): Serialize works, String/MarshalJSON dereference nil",
-	"srv6-bsid-subtlv":                   "TunnelEncapSubTLVSRv6BSID: never produced by the decoder; Serialize copies into buf[2:BSID.Len()] (truncates the SID, panics for Length < BSID.Len()) and ignores EPBAS",
-	"aigp-empty-tlv":                     "NewAigpTLVDefault(t, nil) serialises length 3, PathAttributeAigp.DecodeFromBytes rejects length <= 3 (as a message header error)",
+	"ec-unknown-evpn-mup-subtype": "NewUnknownExtended(EC_TYPE_MUP, unknown sub-type) serialises, ParseExtended (parseMUPExtended) returns an error instead of UnknownExtended, which makes the whole UPDATE malformed; pinned by Test_MUPExtendedUnknownSubType (the EVPN half of this key is repaired: FixedCodecIssues ec-unknown-evpn-subtype)",
+	"srv6-bsid-subtlv":            "TunnelEncapSubTLVSRv6BSID (what apiutil.UnmarshalSRBSID builds for an SRv6 binding SID) is never produced by the decoder: it shares sub-TLV type 13 with TunnelEncapSubTLVSRBSID and parses back as that type (String differs, the B flag is not shown), and Serialize ignores EPBAS; on the unrepaired tree Serialize also copied into buf[2:BSID.Len()] (SID truncated by two octets, panic for Length < BSID.Len())",
+}
+
+// FixedCodecIssues documents the keys that used to be in KnownCodecIssues and were repaired in
+// gobgp (one 'fix:' commit each).  The generators no longer avoid these shapes; the probes
+// codec-<key> of test C04 still run their search and must now pass.
+var FixedCodecIssues = map[string]string{
+	"ec-2octet-as-subtype4-transitive":   "NewTwoOctetAsSpecificExtended(0x04, as, la, true): ParseExtended mapped type 0x00/sub-type 0x04 to LinkBandwidthExtended, which always serialises type 0x40 (transitivity bit flipped)",
+	"ec-multicast-flags-none":            "NewMulticastFlagsExtended(false,false) serialises flags=0, parseEvpnExtended then failed with 'unknown evpn subtype: 9'",
+	"ec-multicast-flags-both":            "NewMulticastFlagsExtended(true,true).Serialize used else-if: the MLD proxy bit was never set when IGMP proxy was set",
+	"ec-l2attr-primary-and-backup":       "Layer2AttributesExtended{IsPrimaryPe:true,IsBackupPe:true}.Serialize used else-if: the primary-PE bit was dropped",
+	"ec-unknown-evpn-subtype":            "NewUnknownExtended(EC_TYPE_EVPN, unknown sub-type) serialises, ParseExtended returned an error instead of UnknownExtended (EVPN half of ec-unknown-evpn-mup-subtype)",
+	"rd-unknown-type":                    "RouteDistinguisherUnknown: GetRouteDistinguisher never filled Value for unknown RD types, the 6 value octets were lost (re-serialised as zero)",
+	"evpn-ipmsi":                         "NewEVPNIPMSIRoute: Serialize emitted 28 octets for Len()==20 (buffer made with len 20 then appended) and getEVPNRouteType had no case for route type 9",
+	"encap-nlri-multi":                   "EncapNLRI.decodeFromBytes built the address from all remaining octets instead of the 4/16 the length octet announces: a second NLRI in the same MP_REACH_NLRI made the first one invalid (Len()==1) and mis-framed the rest",
+	"flowspec-len-ge-240":                "FlowSpecNLRI of 240 octets or more: Serialize wrote the 2-octet length into the body instead of the prefix (and without the 0xf nibble), Len() and Serialize disagreed at 239/240, decode did not mask 0x0fff",
+	"ls-prefix-len0":                     "NewLsPrefixTLVs with a /0 prefix emitted one prefix octet, LsTLVIPReachability.DecodeFromBytes wants none ('Malformed IP reachability TLV')",
+	"ls-ctor-local-ipv6-router-id":       "NewLsTLVLocalIPv6RouterID set Length 0, Serialize failed ('LS TLV malformed')",
+	"ls-ctor-remote-ipv6-router-id":      "NewLsTLVRemoteIPv6RouterID set Length 4, Serialize failed",
+	"ls-ctor-sr-capabilities":            "NewLsTLVSrCapabilities computed Length 4*ranges instead of 2+11*ranges, Serialize failed",
+	"ls-ctor-sr-local-block":             "NewLsTLVSrLocalBlock computed Length 4*ranges instead of 2+11*ranges, Serialize failed",
+	"ls-ctor-prefix-sid":                 "NewLsTLVPrefixSID set Length 0, Serialize failed",
+	"ls-ctor-opaque-prefix-attr":         "NewLsTLVOpaquePrefixAttr set Length 0, Serialize failed for a non-empty value",
+	"ls-ctor-peer-adjacency-sid-type":    "NewLsTLVPeerAdjacencySID set Type LS_TLV_ADJACENCY_SID (1099) instead of LS_TLV_PEER_ADJACENCY_SID (1102): parsed back as LsTLVAdjacencySID",
+	"tunnel-encap-len-before-serialize":  "TunnelEncapSubTLV.Length was only set by Serialize: NewPathAttributeTunnelEncap computed PathAttribute.Length (hence Len()) from zero sub-TLV lengths",
+	"tunnel-encap-trailing-empty-subtlv": "TunnelEncapTLV.DecodeFromBytes looped while len(value) > 2: a trailing sub-TLV with an empty value (2 octets) was dropped",
+	"tunnel-encap-trailing-empty-tlv":    "PathAttributeTunnelEncap.DecodeFromBytes looped while len(value) > 4: a trailing TLV without sub-TLVs (4 octets) was dropped",
+	"srbsid-nil-bsid":                    "TunnelEncapSubTLVSRBSID{BSID:nil} (what NewBSID returns for an empty SID): Serialize worked, String/MarshalJSON dereferenced nil",
+	"aigp-empty-tlv":                     "NewAigpTLVDefault(t, nil) serialises length 3, PathAttributeAigp.DecodeFromBytes rejected length <= 3 (as a message header error)",
 }
 
 // AvoidKnownIssues makes the generators stay away from the shapes listed in
@@ -219,7 +206,7 @@ func xName(s *Src, lo, hi int) string {
 // ---------------------------------------------------------------------------
 
 // sub-types used with the AS / address specific kinds.  0x04 (link bandwidth /
-// generic) is handled apart because ParseExtended re-types it.
+// generic) is handled apart because ParseExtended re-types the non-transitive one.
 var xECSubTypes = []bgp.ExtendedCommunityAttrSubType{
 	bgp.EC_SUBTYPE_ROUTE_TARGET, bgp.EC_SUBTYPE_ROUTE_ORIGIN, bgp.EC_SUBTYPE_OSPF_DOMAIN_ID, bgp.EC_SUBTYPE_OSPF_ROUTE_ID,
 	bgp.EC_SUBTYPE_BGP_DATA_COLLECTION, bgp.EC_SUBTYPE_SOURCE_AS, bgp.EC_SUBTYPE_L2VPN_ID, bgp.EC_SUBTYPE_VRF_ROUTE_IMPORT,
@@ -255,7 +242,7 @@ func ExtCommunityOfKind(s *Src, kind int) bgp.ExtendedCommunityInterface {
 	switch kind {
 	case 0:
 		sub, tr := xSubType(s), !s.Chance(1, 4)
-		if sub == 0x04 && !tr || sub == 0x04 && avoid("ec-2octet-as-subtype4-transitive") {
+		if sub == 0x04 && !tr {
 			// non-transitive 0x40/0x04 *is* the link bandwidth community (kind 5)
 			sub = bgp.EC_SUBTYPE_ROUTE_TARGET
 		}
@@ -295,20 +282,11 @@ func ExtCommunityOfKind(s *Src, kind int) bgp.ExtendedCommunityInterface {
 	case 13:
 		e := &bgp.Layer2AttributesExtended{HasCILabel: s.Bool(), HasFlowLabel: s.Bool(), HasControlWord: s.Bool(),
 			IsPrimaryPe: s.Bool(), IsBackupPe: s.Bool(), Mtu: s.U16()}
-		if e.IsPrimaryPe && e.IsBackupPe && avoid("ec-l2attr-primary-and-backup") {
-			e.IsPrimaryPe = false
-		}
 		return e
 	case 14:
 		return bgp.NewETreeExtended(xLabel24(s), s.Bool())
 	case 15:
 		igmp, mld := !s.Bool(), s.Bool()
-		if !igmp && !mld && avoid("ec-multicast-flags-none") {
-			igmp = true
-		}
-		if igmp && mld && avoid("ec-multicast-flags-both") {
-			mld = false
-		}
 		return bgp.NewMulticastFlagsExtended(igmp, mld)
 	case 16:
 		return bgp.NewTrafficRateExtended(s.U16(), xFloat(s))
@@ -342,12 +320,13 @@ func ExtCommunityOfKind(s *Src, kind int) bgp.ExtendedCommunityInterface {
 		case 2: // experimental types with a sub-type that has no decoder
 			v[0] = Pick(s, []byte{0x00, 0x01, 0x0c, 0xff})
 			return bgp.NewUnknownExtended(Pick(s, []bgp.ExtendedCommunityAttrType{0x80, 0x81, 0x82}), v)
-		default:
-			if avoid("ec-unknown-evpn-mup-subtype") {
-				return bgp.NewUnknownExtended(0x90, v)
-			}
+		default: // EVPN / MUP with a sub-type that has no decoder
 			v[0] = Pick(s, []byte{0x06, 0x0a, 0x0f, 0xff})
-			return bgp.NewUnknownExtended(Pick(s, []bgp.ExtendedCommunityAttrType{bgp.EC_TYPE_EVPN, bgp.EC_TYPE_MUP}), v)
+			t := Pick(s, []bgp.ExtendedCommunityAttrType{bgp.EC_TYPE_EVPN, bgp.EC_TYPE_MUP})
+			if t == bgp.EC_TYPE_MUP && avoid("ec-unknown-evpn-mup-subtype") {
+				t = bgp.EC_TYPE_EVPN
+			}
+			return bgp.NewUnknownExtended(t, v)
 		}
 	}
 	panic(fmt.Sprintf("verifgen: extended community kind %d", kind))
